@@ -97,7 +97,14 @@ async fn validate_stored_tree(
             // TODO: Read index hunks, count into the task per hunk. Then, we can
             // read hunks in parallel.
             for addr in entry.addrs {
-                let end = addr.start + addr.len;
+                let end = match addr.start.checked_add(addr.len) {
+                    Some(end) => end,
+                    None => {
+                        return Err(Error::InvalidMetadata {
+                            details: format!("Block address range overflows: {addr:?}"),
+                        });
+                    }
+                };
                 block_lens
                     .entry(addr.hash.clone())
                     .and_modify(|l| *l = max(*l, end))
